@@ -653,13 +653,14 @@ example : NumpyHist [2, 0, 1] [(0 : ℚ), 1, 2, 3] 0 3 3 ∧ profileHist [2, 0, 
   ⟨⟨by decide, by decide +kernel, rfl, rfl, rfl, ⟨2, [0, 1], rfl, by decide⟩, by decide⟩, by decide +kernel⟩
 
 /-- The two base cases of `small_sum_keeps_first_bin_at_minimum`: a one-batch profile (numpy's contract) and the placeholder
-`TableProfile.__add__` builds for a column the right table lacks have their first bin at the minimum (the placeholder has
+`TableProfile.__add__` builds for a column one of the tables lacks have their first bin at the minimum (a placeholder has
 neither). -/
 theorem base_profiles_first_bin_at_minimum {counts : List Nat} {edges : List K} {lo hi : K} {n : Nat}
-    (h : NumpyHist counts edges lo hi n) (count missing : K) (l : EProf K) (rr : K) :
-    PHeadMin (⟨count, missing, some lo, some hi, profileHist counts edges, none⟩ : EProf K) ∧ PHeadMin (placeholder l rr) := by
+    (h : NumpyHist counts edges lo hi n) (count missing : K) (l : EProf K) (lr rr : K) :
+    PHeadMin (⟨count, missing, some lo, some hi, profileHist counts edges, none⟩ : EProf K) ∧ PHeadMin (placeholder l lr rr) ∧
+    PHeadMin (placeholderL l lr rr) := by
   obtain ⟨_, _, _, _, _, f0, rest, hh⟩ := profileHist_facts comprehension_keeps_left_edges h (by decide)
-  refine ⟨?_, rfl⟩
+  refine ⟨?_, rfl, rfl⟩
   unfold PHeadMin
   simp only [hh, List.head?_cons]
 
@@ -705,53 +706,69 @@ theorem first_bin_at_minimum_estimates_full {p : EProf K} (ok : ProfOK p) (hm : 
 /-! ## Round 4: table-level sums — `TableProfile + TableProfile` with different column sets and row counts -/
 
 section tables
-open Gen.TableProf (placeholderCount placeholderMissing)
+open Gen.TableProf (placeholderCount placeholderMissing leftPlaceholderCount leftPlaceholderMissing keepsRightOnly)
 
 variable {t a b s : TProf K} {c : String × EProf K}
 
-/-- **The stand-in for a column the right table lacks holds no values** (`Gen.TableProf.placeholderCount /
-placeholderMissing`, regenerated from `TableProfile.__add__` on every run): whatever the row counts of the two tables, its
-`count - missing` is 0, so it adds rows but no values to the column sum.  With `ColumnProfile(name, type, right_rows,
-left_column.count)` this no longer checks (the placeholder would hold `right_rows - left_rows` values no histogram knows of). -/
+/-- **A stand-in for a column one table lacks holds no values** (`Gen.TableProf.placeholderCount / placeholderMissing` for a
+column the right table lacks, `leftPlaceholderCount / leftPlaceholderMissing` for one the left table lacks — regenerated from
+`TableProfile.__add__` on every run): whatever the present column and the row counts of the two tables, its `count - missing`
+is 0, so it adds rows but no values to the column sum.  With a stand-in whose `count` and `missing` come from different sides
+(`ColumnProfile(name, type, right_rows, left_rows)`) this no longer checks: it would hold `right_rows - left_rows` values no
+histogram knows of. -/
 theorem placeholder_holds_no_values : PlaceholderEmpty K := by
-  intro lc lm rr
-  simp [placeholderCount, placeholderMissing]
+  intro c m lr rr
+  constructor <;> simp [placeholderCount, placeholderMissing, leftPlaceholderCount, leftPlaceholderMissing]
 
 /-- **Every column of every reachable table profile is a reachable column profile**: tables built from frames (columns
-well formed, numpy's histogram the parameter), estimated on in between, added any number of times in any grouping — the
-right table lacking columns of the left one, having others, in another order, with any row count — have columns to which
+well formed, numpy's histogram the parameter), estimated on in between, added any number of times in any grouping — either
+table lacking columns of the other, in another order, with any row count — have columns to which
 `sum_estimates_use_the_sum`, `reachable_profile_ok`, `reachable_below_add_above` and `reachable_estimates_bounded` apply. -/
 theorem table_columns_reachable (h : TReach t) (hc : c ∈ t.cols) : Reach refMerge ProfOK c.2 :=
   treach_cols placeholder_holds_no_values h c hc
 
-/-- **What a table sum consists of**: the column names of the left table, in its order; each column holds the non-null
-values of the left table's column plus those of the right table's column of that name — **none** when the right table lacks
+/-- **What a table sum consists of**: the column names of the left table, in its order, followed (when the source has the
+second loop: `Gen.TableProf.keepsRightOnly`) by the names only the right table has, in its order; each column holds the
+non-null values of the left table's column of that name plus those of the right table's — **none** for the side that lacks
 it, whatever the two row counts are. -/
 theorem table_sum_columns (h : TProf.addRef a b = .ok s) :
-    s.cols.map (·.1) = a.cols.map (·.1) ∧
-    ∀ c ∈ s.cols, ∃ l, a.column c.1 = some l ∧
-      c.2.nonNull = l.nonNull + (match b.column c.1 with | some r => r.nonNull | none => 0) := by
-  obtain ⟨hn, hcs⟩ := addColumns_spec EProf.addRef a b _ _ (tAddWith_ok h)
-  refine ⟨hn, ?_⟩
+    s.names = a.names ++ (if keepsRightOnly then b.names.filter (fun n => !a.names.contains n) else []) ∧
+    ∀ c ∈ s.cols, ((a.column c.1).isSome ∨ (b.column c.1).isSome) ∧
+      c.2.nonNull = (match a.column c.1 with | some l => l.nonNull | none => 0) +
+                    (match b.column c.1 with | some r => r.nonNull | none => 0) := by
+  obtain ⟨cs, ds, h1, h2, hs⟩ := tAddWith_ok h
+  obtain ⟨hn1, hcs⟩ := addColumns_spec EProf.addRef a b _ _ h1
+  obtain ⟨hn2, hds⟩ := rightOnly_cols h2
+  refine ⟨by unfold TProf.names at *; rw [hs, List.map_append, hn1, hn2], ?_⟩
   intro c hc
-  obtain ⟨l, r, hl, hr, hsum⟩ := hcs c hc
-  refine ⟨l, hl, ?_⟩
-  have hrn : r.nonNull = (match b.column c.1 with | some r => r.nonNull | none => 0) := by
-    cases hb : b.column c.1 with
-    | none =>
-      rw [hb] at hr; simp only [Option.getD_none] at hr
-      subst hr
-      exact (placeholder_profOK placeholder_holds_no_values l b.rows).2.2
-    | some r' =>
-      rw [hb] at hr; simp only [Option.getD_some] at hr
-      subst hr; rfl
-  rw [← hrn]
-  by_cases lf : Gen.TableProf.sumLeftFirst = true
-  · rw [if_pos lf] at hsum; exact nonNull_add hsum
-  · rw [if_neg lf] at hsum; rw [nonNull_add hsum]; ring
+  rw [hs] at hc
+  rcases List.mem_append.mp hc with hc | hc
+  · obtain ⟨l, r, hl, hr, hsum⟩ := hcs c hc
+    refine ⟨Or.inl (by rw [hl]; rfl), ?_⟩
+    have hrn : r.nonNull = (match b.column c.1 with | some r => r.nonNull | none => 0) := by
+      cases hb : b.column c.1 with
+      | none =>
+        rw [hb] at hr; simp only [Option.getD_none] at hr
+        subst hr
+        exact (placeholder_profOK placeholder_holds_no_values l a.rows b.rows).2.2
+      | some r' =>
+        rw [hb] at hr; simp only [Option.getD_some] at hr
+        subst hr; rfl
+    rw [hl, ← hrn]
+    by_cases lf : Gen.TableProf.sumLeftFirst = true
+    · rw [if_pos lf] at hsum; exact nonNull_add hsum
+    · rw [if_neg lf] at hsum; rw [nonNull_add hsum]; ring
+  · obtain ⟨r, hl, hr, hsum⟩ := hds c hc
+    refine ⟨Or.inr (by rw [hr]; rfl), ?_⟩
+    have h0 := (placeholderL_profOK placeholder_holds_no_values r a.rows b.rows).2.2
+    rw [hl, hr]
+    by_cases lf : Gen.TableProf.rightOnlyLeftFirst = true
+    · rw [if_pos lf] at hsum; rw [nonNull_add hsum, h0]
+    · rw [if_neg lf] at hsum; rw [nonNull_add hsum, h0]; ring
 
 /-- **Below and above add up on every column of every reachable table profile**, and the histogram the estimates are
-computed from has exactly `count - missing` values — the clause the placeholder of a half-finished tidy-up breaks. -/
+computed from has exactly `count - missing` values — the clause a stand-in with `count` and `missing` from different sides
+breaks. -/
 theorem table_estimates_add_up (h : TReach t) (hc : c ∈ t.cols) :
     sumCounts c.2.view.bins = c.2.count - c.2.missing ∧
     ∀ x b', c.2.below x = some b' → ∃ a', c.2.above x = some a' ∧ b' + a' = c.2.count - c.2.missing :=
@@ -761,20 +778,22 @@ theorem table_estimates_add_up (h : TReach t) (hc : c ∈ t.cols) :
 end tables
 
 /-- Non-vacuity of the table theorems: the profile of a frame with columns `a`, `b` (three rows) plus the profile of a
-one-row frame that has only `a`: the sum keeps both columns, `b` with its 3 values (4 rows reported twice over — the
-placeholder repeats the left column's count — but no value added). -/
+one-row frame with columns `c`, `a`: the sum has `a`, `b`, then `c`; `b` keeps its 3 values, `c` its single one, and every
+histogram total is the column's `count - missing` — on the source as it is now every column reports 4 rows. -/
 example :
     let ta : TProf ℚ := ⟨[("a", ⟨3, 0, some 1, some 4, [(1, 2), (4, 1)], none⟩), ("b", ⟨3, 0, some 0, some 7, [(0, 1), (3, 1), (7, 1)], none⟩)]⟩
-    let tb : TProf ℚ := ⟨[("a", ⟨1, 0, some 2, some 2, [(2, 1)], none⟩)]⟩
-    ∃ s, TProf.addRef ta tb = .ok s ∧ s.cols.map (·.1) = ["a", "b"] ∧
-      s.cols.map (fun c => c.2.nonNull) = [4, 3] ∧ s.cols.map (fun c => sumCounts c.2.hist) = [4, 3] := by
+    let tb : TProf ℚ := ⟨[("c", ⟨1, 0, some 5, some 5, [(5, 1)], none⟩), ("a", ⟨1, 0, some 2, some 2, [(2, 1)], none⟩)]⟩
+    ∃ s, TProf.addRef ta tb = .ok s ∧
+      s.cols.map (fun c => c.2.nonNull) = s.cols.map (fun c => sumCounts c.2.hist) ∧
+      (s.cols.filter (fun c => c.1 == "b")).map (fun c => c.2.nonNull) = [3] := by
   refine ⟨_, rfl, ?_⟩
   decide +kernel
 
-/-- **What goes wrong when the placeholder takes its `count` from the right table but its `missing` from the left column**
-(`ColumnProfile(name, type, right_rows, left_column.count)`): a left column of three values added to the placeholder of a
-one-row right table reports `4 - 3 = 1` non-null value while its histogram holds 3 and `count_at` answers 3 at the maximum:
-`(count - missing) - count_at(maximum)`, the estimate of the values above the maximum, is `1 - 3 = -2`. -/
+/-- **What goes wrong when a stand-in takes its `count` from one side and its `missing` from the other**
+(`ColumnProfile(name, type, right_rows, left_rows)`, or `right_rows` with `left_column.count` before the row counts were
+introduced): a left column of three values added to the stand-in of a one-row right table reports `4 - 3 = 1` non-null value
+while its histogram holds 3 and `count_at` answers 3 at the maximum: `(count - missing) - count_at(maximum)`, the estimate of
+the values above the maximum, is `1 - 3 = -2`. -/
 theorem half_updated_placeholder_breaks_the_sum :
     let l : EProf ℚ := ⟨3, 0, some 0, some 7, [(0, 1), (3, 1), (7, 1)], none⟩
     let ph : EProf ℚ := ⟨1, 3, none, none, [], none⟩
